@@ -100,10 +100,10 @@ def scalar_key(t, v):
     return v
 
 
-def rand_field(r, name, max_extent=4, data_mode='any', cfg_mode='any', sizes=None, ordered=False, min_extent=1):
+def rand_field(r, name, max_extent=4, data_mode='any', cfg_mode='any', sizes=None, ordered=False, min_extent=1, slack=0):
     """tokens for `new <slot>`: configurations outermost first, then the primitive's data.
     Extents are chosen so that the storage matches the layout (capacity of the outermost storage
-    order layer)."""
+    order layer); slack > 0 makes the array LONGER than the layout needs (legal: the tail is never addressed)."""
     lk, p = layer_kinds(name)
     toks = []
     cap = None
@@ -134,7 +134,7 @@ def rand_field(r, name, max_extent=4, data_mode='any', cfg_mode='any', sizes=Non
             toks += [rand_scalar(r, k.tc, cfg_mode) for _ in range(k.n * (k.n + 1))]
     if p[0] == 'array':
         m = int(p[1])
-        n = cap if cap is not None else r.range(0, 6)
+        n = (cap + slack) if cap is not None else r.range(0, 6)
         toks += [n] + [rand_scalar(r, p[2], data_mode) for _ in range(n * m)]
     elif p[0] == 'constant':
         toks += [rand_scalar(r, p[4], data_mode) for _ in range(int(p[3]))]
